@@ -19,3 +19,5 @@ def check(ctx: Ctx) -> None:
     CT.r_omitted_params(ctx, "R16.8")
     # "a command named after it": the word the client typed is the word that is looked up (no case folding, no rewriting)
     CT.r_tokens(ctx, "R16.9")
+    # "a client that connects to a control server": over the address the caller named, as the caller spelt it
+    CT.r_path_as_given(ctx, "R16.10")
